@@ -2,6 +2,8 @@ import I2N.Lemmas.Trav
 import I2N.Lemmas.TravProgress
 import I2N.Lemmas.TravTerm
 import I2N.Lemmas.TravGlobal
+import I2N.Lemmas.TravGlobalN
+import I2N.Lemmas.TravGlobalR
 import I2N.Model.TravMon
 /-!
 # C02 — Traversal terminates and every selected test gets a definite result  (partial by design)
@@ -781,5 +783,273 @@ theorem unmatched_copy_reruns :
     (fun s : State => (pcWaitOf (s.wd 0).pc, (s.nd 2).results.length))
       (I2N.Trav.Global.runSteps gMis (initState gMis 3 []) (List.replicate 12 (⟨some "PASS", 1⟩, 144))) = (some (2, 0), 10) := by
   decide +kernel
+
+/-! ## Progress ACROSS suspensions: any number of workers (`Lemmas/TravGlobalN.lean`)
+
+The scheduler view of a run of a pre-parsed graph with ANY number of workers: a list of steps `(worker, outcome of the test
+it awaited, fuel)` (`GlobalN.StepN`), any interleaving; the state evolves by `resume g s w out fuel` (`GlobalN.runStepsN`)
+from `initState g ncls store`.  A step is *productive* (`GlobalN.productive`, a function of the stepping worker's program
+counter before and after the step) unless it is a step of a worker whose traversal is over, or a worker in the loop / waking
+up from a back-off sleep goes to sleep (again) at an occupied node.  `GlobalN.Patient`: no worker steps after it has waited at
+occupied nodes for longer than `timeout · max(max_tries, 1)` of such a node — so no `max_concurrent_tries` is ever bumped. -/
+
+open I2N.Trav.Term I2N.Trav.Global I2N.Trav.GlobalN in
+/-- **nonbounce_steps_bounded** (`_partial`: class hypotheses and patience).  Pre-parsed acyclic graph, ANY number of
+workers, any interleaving of steps of real workers with `fuel ≥ bound g`, any outcomes (any status, results that never
+arrive, any duration); `noRootsB`, `classesOKB` as in `single_worker_terminates_partial`; the run is `Patient`.  Then the
+number of productive steps of the WHOLE run — every step of a worker that is inside a test (ticks of the result wait
+included), and every step of a worker in the loop or waking up from a back-off sleep that does not end in a back-off sleep
+again — is at most `24 · Σ_n max(max_tries n, 1) + |workers|`, a function of the static graph.  So the ONLY way a run can be
+long is workers sleeping at occupied nodes (`unproductive_step_is_backoff`: every other step is a no-op of a finished
+worker or a `loop/bounce → bounce` step).
+
+Why: `cntN = 24·#results + Σ_v q(pc v)` (`q` = the wait counter inside a test, 12 in the loop / back-off sleep, 13 when over)
+never falls and grows with every productive step (`GlobalN.step_cntN`; a block with `fuel ≥ bound g` ends by itself, so a
+wake-up that does not end asleep ends inside a fresh test, done or dead); `#results ≤ Σ_n max(max_tries n, 1)` by the C03
+budgets for any number of workers (`GlobalN.total_le_resultBoundN`).
+
+MISSING for the full statement: object roots and the class hypotheses (as for one worker); `Patient` — without it the
+thresholds grow with every over-waited back-off and the C03 budget `max(max_tries, classLimit)` grows with them, so no bound
+in terms of the static graph alone follows from the invariants at hand (whether the model really produces more results then
+is not decided here: the bump involves `Float` comparisons, which `decide` cannot evaluate). -/
+theorem nonbounce_steps_bounded_partial (g : Graph) (hr : rankedB g = true) (hsym : edgeSymB g = true)
+    (hflat : noFlatB g = true) (hwf : graphWF g = true) (ncls : Nat)
+    (hcls : ∀ n, n < g.nodes.length → (g.node n).cls < ncls) (hroots : noRootsB g = true) (hcl : classesOKB g = true)
+    (store : List (String × List (String × String))) (steps : List StepN)
+    (hreal : ∀ x ∈ steps, x.1 < g.workers.length) (hfuel : ∀ x ∈ steps, bound g ≤ x.2.2)
+    (hpat : Patient g (initState g ncls store) steps) :
+    productiveSteps g (initState g ncls store) steps ≤ 24 * resultBound g + g.workers.length :=
+  productive_le ⟨hr, hsym, hflat, hwf, hcls⟩ hroots hcl store steps hreal hfuel hpat
+
+open I2N.Trav.GlobalN I2N.Trav.Global in
+/-- the steps `nonbounce_steps_bounded_partial` does not count (any graph, any state): the worker's traversal was over and
+the step changed nothing, or the worker was in the loop / in a back-off sleep and ends the step in a back-off sleep -/
+theorem unproductive_step_is_backoff (g : Graph) (s : State) (w : Nat) (out : Outcome) (fuel : Nat)
+    (h : productive (s.wd w).pc ((resume g s w out fuel).1.wd w).pc = false) :
+    (((s.wd w).pc = .done ∨ (s.wd w).pc = .failed) ∧ (resume g s w out fuel).1 = s) ∨
+    (((s.wd w).pc = .loop ∨ (s.wd w).pc = .bounce) ∧ ((resume g s w out fuel).1.wd w).pc = .bounce) := by
+  rcases unproductive_step g s w out fuel h with ⟨h1, h2⟩ | h1
+  · left
+    refine ⟨?_, h2⟩
+    cases hpc : (s.wd w).pc <;> rw [hpc] at h1 <;> first | (cases h1; done) | exact Or.inl rfl | exact Or.inr rfl
+  · exact Or.inr h1
+
+/-- two workers of one swarm, one stateless class with a copy each: the second worker finds the class occupied -/
+def gDuo : Graph :=
+  { workers := [{ id := "net1", swarm := "localhost" }, { id := "net2", swarm := "localhost" }],
+    nodes := [{ cls := 0, owner := none, name := "root", pfx := "0", sharedRoot := true,
+                cleanup := [(1, ["vm1"]), (2, ["vm1"])] },
+              { cls := 1, owner := some 0, name := "leaf.net1", pfx := "1", setup := [(0, ["vm1"])] },
+              { cls := 1, owner := some 1, name := "leaf.net2", pfx := "2", setup := [(0, ["vm1"])] }],
+    root := 0 }
+
+/-- worker 0 starts its leaf, worker 1 bounces off the occupied class (an unproductive step), worker 0 finishes -/
+def runOfGDuo : List I2N.Trav.GlobalN.StepN := [(0, ⟨none, 0⟩, 82), (1, ⟨none, 0⟩, 82), (0, ⟨some "PASS", 1⟩, 82)]
+
+def pcIsBounce : Pc → Bool
+  | .bounce => true
+  | _ => false
+
+example : I2N.Trav.Term.rankedB gDuo = true ∧ edgeSymB gDuo = true ∧ I2N.Trav.Term.noFlatB gDuo = true ∧
+    graphWF gDuo = true ∧ I2N.Trav.Global.noRootsB gDuo = true ∧ I2N.Trav.Global.classesOKB gDuo = true ∧
+    I2N.Trav.Term.bound gDuo = 82 ∧ I2N.Trav.Global.resultBound gDuo = 3 := by decide +kernel
+/-- the run has two productive steps and one back-off step; afterwards worker 0 is done and worker 1 sleeps -/
+example : I2N.Trav.GlobalN.productiveSteps gDuo (initState gDuo 2 []) runOfGDuo = 2 ∧
+    pcIsDone ((I2N.Trav.GlobalN.runStepsN gDuo (initState gDuo 2 []) runOfGDuo).wd 0).pc = true ∧
+    pcIsBounce ((I2N.Trav.GlobalN.runStepsN gDuo (initState gDuo 2 []) runOfGDuo).wd 1).pc = true := by decide +kernel
+/-- the run is patient: no worker that steps has bounced before -/
+theorem runOfGDuo_patient : I2N.Trav.GlobalN.Patient gDuo (initState gDuo 2 []) runOfGDuo :=
+  ⟨not_overWaited_of_nil (by decide +kernel), not_overWaited_of_nil (by decide +kernel),
+    not_overWaited_of_nil (by decide +kernel), trivial⟩
+example := nonbounce_steps_bounded_partial gDuo (by decide) (by decide) (by decide) (by decide) 2 (by decide) (by decide)
+  (by decide +kernel) [] runOfGDuo (by decide) (by decide) runOfGDuo_patient
+
+open I2N.Trav.GlobalN in
+/-- **bounce_only_while_someone_runs** (`bounce_needs_runner` lifted from states to steps).  Any graph with edges recorded
+at both ends (lazily expanded ones included), any reachable state, any real worker `w`, any outcome, positive fuel: if the
+step of `w` ENDS in the back-off sleep — whatever it did before in that step: settle a test, walk, clean up —, then some
+OTHER real worker `v` is, at the beginning of the step (and, `w`'s step not touching `v`'s record, at its end), suspended
+inside a test execution or dead (`failed`).  Hence workers never sleep waiting for each other only, and a worker all of whose
+peers are `done` never sleeps (`last_worker_terminates_partial`).
+Proof: if every other worker is neither inside a test nor dead, no `started` mark exists while `w` is in its loop
+(`PInvO.markPc`), so `is_occupied` is false in every iteration of the step (`GlobalN.resume_quiet`: one more walk through
+`traverseNode`, `iter`, `iterL`, `runLoop`, `continueAfter`, `resumeTest`, `resume`).
+`0 < fuel` is needed for the trivial reason that a step without fuel leaves a sleeping worker asleep
+(`fuelless_step_stays_asleep`); the `failed` alternative is needed because a dead worker keeps its mark
+(`dead_holder_blocks_last_worker`). -/
+theorem bounce_only_while_someone_runs (g : Graph) (hsym : EdgeSym g) (ncls : Nat)
+    (store : List (String × List (String × String))) (s : State) (h : ReachableF g ncls store s) (w : Nat)
+    (hw : w < g.workers.length) (out : Outcome) (fuel : Nat) (hf : 0 < fuel)
+    (hb : ((resume g s w out fuel).1.wd w).pc = .bounce) :
+    ∃ v, v ≠ w ∧ v < g.workers.length ∧ ((∃ m, (s.wd v).pc.node? = some m) ∨ (s.wd v).pc = .failed) :=
+  bounce_has_runner g hsym s w out fuel hf hw (h.pinv hsym) hb
+
+open I2N.Trav.Term I2N.Trav.Global I2N.Trav.GlobalN in
+/-- **last_worker_terminates** (`_partial`: class hypotheses; the prefix of the run is patient).  Hypotheses of
+`nonbounce_steps_bounded_partial`; `pre` is any patient run of any workers after which every real worker but `w` is `done`.
+Then, whatever `w`'s own back-off record is (it may have over-waited before) and whatever its tests do from now on:
+along ANY further steps of `w` with `fuel ≥ bound g` the others stay done, `w` never ends a step in the back-off sleep,
+and after any `24·Σ_n max(max_tries n, 1) + 13·|workers| + 1` such steps `w` is `done` or `failed` — the whole traversal is
+over.  With one worker and `pre = []` this is `single_worker_terminates_partial` again (with a slightly larger bound).
+"`done`" cannot be weakened to "`done` or `failed`": a dead worker keeps its `started` mark, and the last worker sleeps in
+front of it for ever (`dead_holder_blocks_last_worker` shows the first sleep; in the code the exception of one worker
+propagates through `asyncio.gather` in `plugins/runner.py` and ends the whole run, so there the sleeping worker is simply
+not resumed any more — the endless sleep is a property of the model's scheduler view only). -/
+theorem last_worker_terminates_partial (g : Graph) (hr : rankedB g = true) (hsym : edgeSymB g = true)
+    (hflat : noFlatB g = true) (hwf : graphWF g = true) (ncls : Nat)
+    (hcls : ∀ n, n < g.nodes.length → (g.node n).cls < ncls) (hroots : noRootsB g = true) (hcl : classesOKB g = true)
+    (store : List (String × List (String × String))) (pre : List StepN)
+    (hreal : ∀ x ∈ pre, x.1 < g.workers.length) (hfuel : ∀ x ∈ pre, bound g ≤ x.2.2)
+    (hpat : Patient g (initState g ncls store) pre) (w : Nat) (hw : w < g.workers.length)
+    (hdone : ∀ v, v ≠ w → v < g.workers.length → ((runStepsN g (initState g ncls store) pre).wd v).pc = .done)
+    (steps : List (Outcome × Nat)) (hfuel' : ∀ x ∈ steps, bound g ≤ x.2) :
+    (∀ v, v ≠ w → v < g.workers.length →
+      ((runW g w (runStepsN g (initState g ncls store) pre) steps).wd v).pc = .done) ∧
+    (steps ≠ [] → ((runW g w (runStepsN g (initState g ncls store) pre) steps).wd w).pc ≠ .bounce) ∧
+    (24 * resultBound g + 13 * g.workers.length + 1 ≤ steps.length →
+      ((runW g w (runStepsN g (initState g ncls store) pre) steps).wd w).pc = .done ∨
+      ((runW g w (runStepsN g (initState g ncls store) pre) steps).wd w).pc = .failed) := by
+  have st : StaticN g ncls := ⟨hr, hsym, hflat, hwf, hcls⟩
+  obtain ⟨y, _⟩ := run_cntN st hroots pre _ (ginvN_init g ncls store) hreal hfuel hpat
+  obtain ⟨_, z2, z3, _⟩ := lastWorker_run st hroots w hw steps _ y hdone hfuel'
+  refine ⟨z2, z3, fun hlen => ?_⟩
+  have h := lastWorker_over st hroots hcl w hw steps _ y hdone hfuel' hlen
+  cases hpc : ((runW g w (runStepsN g (initState g ncls store) pre) steps).wd w).pc with
+  | done => exact Or.inl rfl
+  | failed => exact Or.inr rfl
+  | test n ph dir uid tag wait => rw [hpc] at h; cases h
+  | loop => rw [hpc] at h; cases h
+  | bounce => rw [hpc] at h; cases h
+
+/-- non-vacuity: after `runOfGDuo` worker 0 is done and worker 1 — asleep in front of the class worker 0 had occupied — is
+the last worker; its next step (fuel `≥ bound gDuo = 82`) does not end asleep: it leaves through the shared root -/
+example : ((I2N.Trav.GlobalN.runW gDuo 1 (I2N.Trav.GlobalN.runStepsN gDuo (initState gDuo 2 []) runOfGDuo)
+    [(⟨none, 0⟩, 82)]).wd 1).pc ≠ .bounce :=
+  (last_worker_terminates_partial gDuo (by decide) (by decide) (by decide) (by decide) 2 (by decide) (by decide)
+    (by decide +kernel) [] runOfGDuo (by decide) (by decide) runOfGDuo_patient 1 (by decide)
+    (by
+      intro v hv hvl
+      have hv0 : v = 0 := by
+        have : v < 2 := hvl
+        omega
+      subst hv0
+      have h : pcIsDone ((I2N.Trav.GlobalN.runStepsN gDuo (initState gDuo 2 []) runOfGDuo).wd 0).pc = true := by
+        decide +kernel
+      cases hpc : ((I2N.Trav.GlobalN.runStepsN gDuo (initState gDuo 2 []) runOfGDuo).wd 0).pc <;> rw [hpc] at h <;>
+        first | rfl | cases h)
+    [(⟨none, 0⟩, 82)] (by decide)).2.1 (by simp)
+example : pcIsDone ((I2N.Trav.GlobalN.runW gDuo 1 (I2N.Trav.GlobalN.runStepsN gDuo (initState gDuo 2 []) runOfGDuo)
+    [(⟨none, 0⟩, 82)]).wd 1).pc = true := by decide +kernel
+/-- the step of worker 1 in `runOfGDuo` ends asleep, and worker 0 is inside a test then -/
+example := bounce_only_while_someone_runs gDuo (edgeSymB_sound (by decide)) 2 []
+  (I2N.Trav.GlobalN.runStepsN gDuo (initState gDuo 2 []) (runOfGDuo.take 1))
+  (.step _ 0 ⟨none, 0⟩ 82 (.init []) (by decide) (by decide)) 1 (by decide) ⟨none, 0⟩ 82 (by decide)
+  (by
+    have h : pcIsBounce ((resume gDuo (I2N.Trav.GlobalN.runStepsN gDuo (initState gDuo 2 []) (runOfGDuo.take 1)) 1
+        ⟨none, 0⟩ 82).1.wd 1).pc = true := by decide +kernel
+    cases hpc : ((resume gDuo (I2N.Trav.GlobalN.runStepsN gDuo (initState gDuo 2 []) (runOfGDuo.take 1)) 1
+        ⟨none, 0⟩ 82).1.wd 1).pc <;> rw [hpc] at h <;> first | rfl | cases h)
+
+/-- Witness that `0 < fuel` cannot be dropped from `bounce_only_while_someone_runs`: a step without fuel leaves the sleeping
+worker 1 of `gDuo` asleep although worker 0 is done. -/
+theorem fuelless_step_stays_asleep :
+    (fun s : State => (pcIsDone (s.wd 0).pc, pcIsBounce ((resume gDuo s 1 ⟨none, 0⟩ 0).1.wd 1).pc))
+      (I2N.Trav.GlobalN.runStepsN gDuo (initState gDuo 2 []) runOfGDuo) = (true, true) := by decide +kernel
+
+/-- three workers of one swarm, one class with `max_tries = -1` (as `gNeg`) -/
+def gNeg3 : Graph :=
+  { workers := [{ id := "net1", swarm := "localhost" }, { id := "net2", swarm := "localhost" },
+                { id := "net3", swarm := "localhost" }],
+    nodes := [{ cls := 0, owner := none, name := "root", pfx := "0", sharedRoot := true,
+                cleanup := [(1, ["vm1"]), (2, ["vm1"]), (3, ["vm1"])] },
+              { cls := 1, owner := some 0, name := "leaf.net1", pfx := "1", setup := [(0, ["vm1"])], maxTries := some (-1) },
+              { cls := 1, owner := some 1, name := "leaf.net2", pfx := "2", setup := [(0, ["vm1"])], maxTries := some (-1) },
+              { cls := 1, owner := some 2, name := "leaf.net3", pfx := "3", setup := [(0, ["vm1"])], maxTries := some (-1) }],
+    root := 0 }
+
+/-- Witness that "the others are `done`" cannot be weakened to "the others are over" in `last_worker_terminates_partial`,
+and that the `failed` alternative of `bounce_only_while_someone_runs` is needed: worker 0 dies after its test (mark returned),
+worker 1 dies inside the run decision of its copy and keeps the mark (`dead_worker_keeps_mark`); worker 2 — the last one
+alive — finds the class occupied and goes to sleep, with nobody left to wake it up. -/
+theorem dead_holder_blocks_last_worker :
+    (fun s : State => ((s.wd 0).pc.isFailed, (s.wd 1).pc.isFailed, (s.nd 2).started, pcIsBounce (s.wd 2).pc))
+      (I2N.Trav.GlobalN.runStepsN gNeg3 (initState gNeg3 2 [])
+        [(0, ⟨none, 0⟩, 144), (0, ⟨some "PASS", 1⟩, 144), (1, ⟨none, 0⟩, 144), (2, ⟨none, 0⟩, 144)]) =
+      (true, true, some 1, true) := by decide +kernel
+
+/-! ## One worker, object roots allowed (`Lemmas/TravGlobalR.lean`) -/
+
+open I2N.Trav.Term I2N.Trav.Global I2N.Trav.GlobalR in
+/-- **single_worker_terminates_roots_partial**: `single_worker_terminates_partial` without `noRootsB`.  The class
+hypothesis becomes `classesOKRB g`: as `classesOKB`, and a class of setup tests may contain OBJECT ROOTS (two-step creation:
+pre-step on a copy of the root's results, then the test proper) provided `max_tries` is unset or `≤ 1` and the name of the
+creation pre-step is not counted by an observer that does not see the root (`statefulClassRoots`, the hypothesis of C03's
+`budget_stateful_roots`).  Then after ANY `24·Σ_n max(max_tries n, 1) + 23` `resume` steps — whatever the tests and the
+creation pre-steps do: pass, fail, never report — the only worker is `done` or `failed`.
+
+Why: besides `Basic`, the run keeps `RInv`: `tagsBelow`/`tagsOnce` also for object roots (`RN`), and while the worker is
+inside the pre-step of root `n` with placeholder tag `t` its copy is `results n ++ [placeholder t]` with every tag of
+`results n` below `t` (`R3`; there is nobody else who could touch the root).  Hence settling a test proper keeps the number
+of results also at a root, and a failed or never reported pre-step files exactly one result at the root
+(`GlobalR.stepR`/`ShapeR`); the potential `24·#results + qR(pc)` — `qR(pre … wait) = 12 + wait`, `qR(test … wait) = wait`,
+`qR(loop) = 11`, `qR(over) = 23` — grows with every step that does not end the traversal (`GlobalR.resume_cntR`), and
+`#results ≤ Σ_n max(max_tries n, 1)` by the C03 budgets, roots included (`GlobalR.total_le_resultBoundR`).
+
+MISSING for the full statement: object roots with `max_tries ≥ 2` (the C03 bound is FALSE there, `root_creation_hidden`) and
+stateless object roots (no budget invariant); the other class hypotheses as before.  For several workers `RInv` would need
+"an object root is cared for by one worker only" — not done. -/
+theorem single_worker_terminates_roots_partial (g : Graph) (h1 : g.workers.length = 1) (hr : rankedB g = true)
+    (hsym : edgeSymB g = true) (hflat : noFlatB g = true) (hwf : graphWF g = true) (ncls : Nat)
+    (hcls : ∀ n, n < g.nodes.length → (g.node n).cls < ncls) (hcl : classesOKRB g = true)
+    (store : List (String × List (String × String)))
+    (steps : List (Outcome × Nat)) (hfuel : ∀ x ∈ steps, bound g ≤ x.2)
+    (hlen : 24 * resultBound g + 23 ≤ steps.length) :
+    ((runSteps g (initState g ncls store) steps).wd 0).pc = .done ∨
+    ((runSteps g (initState g ncls store) steps).wd 0).pc = .failed := by
+  have st : Static g ncls := ⟨h1, hr, hsym, hflat, hwf, hcls⟩
+  have h := run_overR st hcl store steps hfuel hlen
+  cases hpc : ((runSteps g (initState g ncls store) steps).wd 0).pc with
+  | done => exact Or.inl rfl
+  | failed => exact Or.inr rfl
+  | test n ph dir uid tag wait => rw [hpc] at h; cases h
+  | loop => rw [hpc] at h; cases h
+  | bounce => rw [hpc] at h; cases h
+
+/-- one worker; the shared root, an object root (vm creation, `max_tries` unset) and a leaf below it -/
+def gRoot : Graph :=
+  { workers := [{ id := "net1", swarm := "localhost" }],
+    nodes := [{ cls := 0, owner := none, name := "all.internal.stateless.noop", pfx := "0", flat := true, sharedRoot := true,
+                cleanup := [(1, ["vm1"])] },
+              { cls := 1, owner := some 0, name := "all.root.vms.vm1.nets.localhost.net1", pfx := "1a1", objectRoot := true,
+                sets := [("vm1", "root")], objs := ["vm1"], setup := [(0, ["vm1"])], cleanup := [(2, ["vm1"])] },
+              { cls := 2, owner := some 0, name := "leaf.vm1.net1", pfx := "2", setup := [(1, ["vm1"])] }],
+    root := 0 }
+
+/-- `gRoot` meets the hypotheses of `single_worker_terminates_roots_partial` and NOT those of
+`single_worker_terminates_partial` -/
+example : gRoot.workers.length = 1 ∧ I2N.Trav.Term.rankedB gRoot = true ∧ edgeSymB gRoot = true ∧
+    I2N.Trav.Term.noFlatB gRoot = true ∧ graphWF gRoot = true ∧ I2N.Trav.GlobalR.classesOKRB gRoot = true ∧
+    I2N.Trav.Global.noRootsB gRoot = false ∧ I2N.Trav.Global.classesOKB gRoot = false ∧
+    I2N.Trav.Term.bound gRoot = 82 ∧ I2N.Trav.Global.resultBound gRoot = 3 := by decide +kernel
+def pcPreOf : Pc → Option (Nat × Nat)
+  | .test n .pre _ _ _ wait => some (n, wait)
+  | _ => none
+
+/-- a run in which the creation pre-step of the root never reports: after the first step the worker is inside the pre-step
+(working on a copy: the root has no result yet), after ten ticks still so.
+(What follows was checked with `#eval` only: with the twelfth step the placeholder itself is filed at the root and the leaf is
+started, the leaf passes and the worker is `done` after 13 steps; when the pre-step reports PASS / FAIL the root ends with the
+results `["PASS"]` / `["FAIL"]` and the worker is `done` after 4 / 3 steps.  These cannot be `decide`d: the name of the
+pre-step is built with `String.splitOn`, which the kernel does not evaluate, and it is compared as soon as a result is looked
+up or counted.) -/
+example :
+    (fun s : State => (pcPreOf (s.wd 0).pc, (s.nd 1).results.length, (s.wd 0).preResults.length))
+      (I2N.Trav.Global.runSteps gRoot (initState gRoot 3 []) [(⟨none, 0⟩, 82)]) = (some (1, 0), 0, 1) ∧
+    (fun s : State => (pcPreOf (s.wd 0).pc, (s.nd 1).results.length))
+      (I2N.Trav.Global.runSteps gRoot (initState gRoot 3 []) (List.replicate 11 (⟨none, 0⟩, 82))) = (some (1, 10), 0) := by
+  decide +kernel
+example := single_worker_terminates_roots_partial gRoot (by decide) (by decide) (by decide) (by decide) (by decide) 3
+  (by decide) (by decide +kernel) [] (List.replicate 95 (⟨none, 0⟩, 82))
+  (fun x hx => by rw [List.eq_of_mem_replicate hx]; decide) (by rw [List.length_replicate]; decide)
 
 end I2N.Props.C02
